@@ -22,8 +22,9 @@ SCOPE = {
              "subType, two chain languages) x 200 seeded models of 1-4 assets each, + coreLang x (shipped example model, 40 "
              "seeded models of 2-6 assets): generate twice on the same objects and once on fresh ones; inputs compared "
              "with snapshots; wrapper from .mar for every pair (coreLang: 12), from .mal for a third of the tiny ones; "
-             "fresh processes: 8 batches of 10 pairs x {direct, .mar wrapper, .mal wrapper} x PYTHONHASHSEED {0,1}",
-    "thorough": "same languages x 2500 models of 1-6 assets, coreLang x 400 models of 2-8 assets, wrapper for all; 40 batches "
+             "fresh processes: 9 batches of 10 tiny pairs x {direct, .mar wrapper, .mal wrapper} + 3 coreLang batches of 3 x "
+             "{direct, .mar wrapper}, each under PYTHONHASHSEED 0 and 1 and compared with this process",
+    "thorough": "same languages x 2500 models of 1-6 assets, coreLang x 400 models of 2-8 assets, wrapper for all; 60 batches "
                 "x PYTHONHASHSEED {0,1,2,random}",
 }
 EXHAUSTIVE = {"quick": False, "thorough": False}
@@ -35,7 +36,7 @@ ASSUMPTIONS = ["two serialisations are compared as json.dumps(graph._to_dict()) 
                ".mal variant only where MalCompiler().compile(emitted text) reproduces the langspec dict exactly",
                "child interpreters: same floor file with --child, cwd = temp dir, PYTHONPATH inherited"]
 BUDGET_S = {"quick": 95, "thorough": 1500}
-CHUNK = 2
+CHUNK = 1
 
 TESTDATA = None
 TINY = ["two", "inherit", "setops", "chain:N/E/E", "chain:NE/EA/EE:sib", "chain:OE/NE/EO/AE"]
@@ -96,18 +97,19 @@ def _cases(tier, seed):
         core_pairs.append({"lang": "corelang", "model": m})
         yield {"kind": "pair", "lang": "corelang", "model": m, "files": ("mar" if (not quick or k < 12) else None),
                "mfmt": ("json", "yml")[k % 2]}
-    # fresh-process batches
+    # fresh-process batches (one case per batch and route, so that no case runs for more than a few seconds)
     seeds = [0, 1] if quick else [0, 1, 2, "random"]
-    nb = 8 if quick else 40
+    nb = 12 if quick else 60
     rnd.shuffle(pairs)
     for b in range(nb):
         if b % 4 == 3:
-            batch = core_pairs[:1] + rnd.sample(core_pairs[1:], 5)
+            batch = core_pairs[:1] + rnd.sample(core_pairs[1:], 2 if quick else 5)
             vias = ["direct", "mar"]
         else:
             batch = pairs[b * 10:(b + 1) * 10]
             vias = ["direct", "mar", "mal"]
-        yield {"kind": "procs", "pairs": batch, "vias": vias, "seeds": seeds}
+        for via in vias:
+            yield {"kind": "procs", "pairs": batch, "vias": [via], "seeds": seeds}
 
 
 # ---------------------------------------------------------------------------------------------------
